@@ -18,7 +18,8 @@ def run_case(seed, index, props):
         if rng.random() < .15:
             try: t.predecessors.append(other)
             except RuntimeError: pass
-    fields = rng.choice([None, ['id', 'name', 'parent', 'successors', 'predecessors', 'nosuch', 'custom', 'estimate', 'spent', 'start', 'Other'], ['name'], ['predecessors', 'name', 'id']])
+    fields = rng.choice([None, ['id', 'name', 'parent', 'successors', 'predecessors', 'nosuch', 'custom', 'estimate', 'spent', 'start', 'Other'], ['name'], ['predecessors', 'name', 'id'],
+                         ['id', 'name', rng.choice(['children', 'all_children', 'wbs', 'clone', 'all_parents', 'print', 'to_dict'])]])
     ch = rng.random() < .7
     theme = rng.choice([None, {'header_color': '92m', 'level_colors': ['94m']}, {'level_colors': []}])
     target = rng.choice(['roots', 'task', 'list'])
